@@ -76,6 +76,18 @@ Definition init : st := mkSt 0 true false CDialing false 0 0 None false false.
 
 Definition out := list output.
 
+(* The control structure is written over an abstract clock arithmetic (Section variables):
+   lemmas about callbacks, attempts and states that do not depend on arithmetic are proved
+   for every interpretation, by vm_compute over the finite control state.  The model proper
+   ([step], below the section) is the instance with Z.add, Z.max, Z.leb and
+   Watchdog.wd_check. *)
+Section Control.
+Variables (add zmax : Z -> Z -> Z) (leb : Z -> Z -> bool) (wdc : Z -> Z -> Z -> Z -> wd_res).
+Declare Scope ctl_scope.
+Local Notation "a + b" := (add a b) : ctl_scope.
+Local Notation "a <=? b" := (leb a b) : ctl_scope.
+Local Open Scope ctl_scope.
+
 Definition applies (c : recon_cond) (exc : bool) : bool :=
   match c with RcOnExc => exc | RcAlways => true | RcNever => false end.
 
@@ -155,7 +167,7 @@ Definition do_stop (fl : flavour) (s : st) : st * out :=
 Definition arm (p : params) (s : st) : st := set_timer s (Some (now s + p_rt p + p_slack p)).
 
 Definition atcp_check (fl : flavour) (p : params) (s : st) : st * out :=
-  match wd_check (p_rt p) (check s) (disc s) (now s) with
+  match wdc (p_rt p) (check s) (disc s) (now s) with
   | WdDrop =>
       if tp s && conn s then
         let '(s1, o1) := local_close fl (set_disc s (now s)) in
@@ -171,7 +183,7 @@ Definition reader_iter (fl : flavour) (p : params) (s : st) (data err : bool) : 
   if err then proto_lost fl s true
   else
     let answered (x : st) := if data && wd_reset_on_answer then set_disc x (now x) else x in
-    match wd_check (p_rt p) (check s) (disc s) (now s) with
+    match wdc (p_rt p) (check s) (disc s) (now s) with
     | WdDrop => let '(s1, o) := proto_lost fl (set_disc s (now s)) true in (answered s1, o)
     | WdProbe => send fl (answered (set_check s (now s))) false
     | WdIdle => (answered s, [])
@@ -211,12 +223,12 @@ Definition tick (fl : flavour) (p : params) (s : st) (dt : Z) : st * out :=
   match ct s with
   | CDialing => (s, [])
   | CSleeping u =>
-      if u <=? now s + dt then start_dial fl (set_now s (Z.max u (now s)))
+      if u <=? now s + dt then start_dial fl (set_now s (zmax u (now s)))
       else (set_now s (now s + dt), [])
   | CIdle =>
       match timer s with
       | Some w =>
-          if w <=? now s + dt then atcp_check fl p (set_timer (set_now s (Z.max w (now s))) None)
+          if w <=? now s + dt then atcp_check fl p (set_timer (set_now s (zmax w (now s))) None)
           else (set_now s (now s + dt), [])
       | None =>
           let s1 := set_now s (now s + dt) in
@@ -253,7 +265,7 @@ Definition probe_answered (fl : flavour) (p : params) (s : st) : st * out :=
     end
   else (s, []).
 
-Definition step (fl : flavour) (p : params) (s : st) (e : event) : st * out :=
+Definition gstep (fl : flavour) (p : params) (s : st) (e : event) : st * out :=
   match e with
   | AttemptOk => attempt_ok fl p s
   | AttemptFail => attempt_fail fl p s
@@ -268,14 +280,22 @@ Definition step (fl : flavour) (p : params) (s : st) (e : event) : st * out :=
   end.
 
 (* run: the state after each event and what the event caused *)
-Fixpoint run (fl : flavour) (p : params) (s : st) (es : list event) : list (st * out) :=
+Fixpoint grun (fl : flavour) (p : params) (s : st) (es : list event) : list (st * out) :=
   match es with
   | [] => []
-  | e :: r => let '(s', o) := step fl p s e in (s', o) :: run fl p s' r
+  | e :: r => let '(s', o) := gstep fl p s e in (s', o) :: grun fl p s' r
   end.
 
-Definition final (fl : flavour) (p : params) (s : st) (es : list event) : st :=
-  fold_left (fun x e => fst (step fl p x e)) es s.
+Definition gfinal (fl : flavour) (p : params) (s : st) (es : list event) : st :=
+  fold_left (fun x e => fst (gstep fl p x e)) es s.
 
-Definition outputs (fl : flavour) (p : params) (s : st) (es : list event) : out :=
-  concat (map snd (run fl p s es)).
+Definition goutputs (fl : flavour) (p : params) (s : st) (es : list event) : out :=
+  concat (map snd (grun fl p s es)).
+
+End Control.
+
+(* the model *)
+Definition step := gstep Z.add Z.max Z.leb wd_check.
+Definition run := grun Z.add Z.max Z.leb wd_check.
+Definition final := gfinal Z.add Z.max Z.leb wd_check.
+Definition outputs := goutputs Z.add Z.max Z.leb wd_check.
